@@ -26,6 +26,11 @@
 //! * `gen_invalid_record(&mut Rng, &HeaderDesc, &RecOpts, Invalid) -> RecDesc`: a valid record with
 //!   one out-of-range aspect (`INVALID_KINDS`, `Invalid::cannot_fit_bam`);
 //! * `boundary_records(&HeaderDesc, Level, huge) -> Vec<RecDesc>`: deterministic boundary corpus;
+//! * history-dependent reader state (reused buffers): `adjacency_corpus(&HeaderDesc)` (deterministic
+//!   rich -> missing -> rich and long -> short -> long neighbours for every optional / variable-length
+//!   part), `gen_record_batch(&mut Rng, &HeaderDesc, &RecOpts, n)` (like `gen_record`, with stripped
+//!   followers), `rich_record`, `minimal_record`, `strip(&RecDesc, field)`, `OPTIONAL_FIELDS`. Read
+//!   such batches back through ONE reader with ONE reused buffer, not a fresh buffer per record;
 //! * `coordinate_sorted_set(&mut Rng, &HeaderDesc, n, &RecOpts) -> Vec<RecDesc>`: records in
 //!   coordinate order straddling bin edges, long-before-short, dense runs, placed/unplaced unmapped;
 //! * `rec_class(&RecDesc) -> String`, `aux_classes(&RecDesc) -> Vec<String>`: coarse classes for
@@ -65,7 +70,7 @@ pub use generate::{
     AUX_KINDS, HeaderOpts, INVALID_KINDS, Invalid, Level, RecOpts, boundary_records, coordinate_sorted_set, gen_header, gen_invalid_record,
     gen_record, rec_class,
 };
-pub use generate::aux_classes;
+pub use generate::{OPTIONAL_FIELDS, adjacency_corpus, aux_classes, gen_record_batch, minimal_record, rich_record, strip};
 pub use text::{aux_text, aux_text_is_canonical, header_text, parse_header_text, parse_sam_line, sam_columns, to_sam_line};
 
 #[cfg(test)]
